@@ -14,7 +14,11 @@ NORM = {"LiteralFloat": "LiteralInteger"}
 
 def run(rep):
     rep.cov["rule"] = (
-        "Coq: for every enumerant of every value enum and every single bit of every mask, the kinds reported by the "
+        "Coq (T-src, for EVERY value): id_ref_any(_mut), required_capabilities, required_extensions and additional_operands are "
+        "translated from dr/autogen_operand.rs (exact group / arm templates) and proved: parameters of a mask value = union over "
+        "its set declared bits = multiset the parser consumes, enumerant parameters = the parser's sequence, requirements = union "
+        "over the set bits / the row of the reference, ids only for the three id kinds, one-word rewrite. "
+        "Coq (T-dump): for every enumerant of every value enum and every single bit of every mask, the kinds reported by the "
         "compiled additional_operands equal the parser's argument rows translated from the source, which equal the "
         "reference. Dynamic (exhaustive): every combination of declared bits of the four parameterised masks "
         "(2^16 + 2^19 + 2^8 + 2^2) - reported kinds as a multiset vs the per-bit parameters; capabilities / extensions "
@@ -23,6 +27,9 @@ def run(rep):
     )
     p = regen.prepare(release=False)
     broken = list(p.broken)
+    of = list(getattr(p, "opreflect_failures", [])) + [f for f in p.facts.get("failures", []) if "opreflect" in f]
+    if of:
+        broken.insert(0, {"lemma": "rs2coq recogniser (T-src reflection functions of dr/autogen_operand.rs)", "error": "\n".join(of[:20])})
     ok, info = pipeline.proof_stage(rep, PROP, broken)
     bad = []
     d = getattr(p, "dump_operand", None)
@@ -102,6 +109,11 @@ def run(rep):
             n += 1
             if c["ok"] != [True, True]:
                 bad.append({"operand": c["variant"], "what": "From<T> for Operand followed by unwrap_* does not return the payload for variant %s (%s)" % (c["variant"], c["ok"])})
+        opr = p.facts.get("opreflect") or {}
+        rep.cov["translated_reflection"] = {
+            fn: {"kinds": len((opr.get(fn) or {}).get("kinds", [])),
+                 "groups_and_arms": sum(len(k.get("groups", k.get("arms", []))) for k in (opr.get(fn) or {}).get("kinds", []))}
+            for fn in ("required_capabilities", "required_extensions", "additional_operands")}
         rep.cov["evaluations"] = n
         rep.cov["distinct_nontrivial"] = nt
         rep.cov["exhaustive"] = True
